@@ -4,6 +4,8 @@ Monitor: every load/dump of a generated type in all 6 modes is compared with the
 reference model of the documentation (vlib/spec.py)."""
 from __future__ import annotations
 
+import typing
+
 from adaptix import Retort
 
 from .. import spec
@@ -365,6 +367,10 @@ def _generic_alias_parameter_order(ctx):
                                   {"hint": repr(hint), "aliased": repr(ref_hint), "what": what})
 
 
+_NT_DECIMAL = typing.NewType("_NT_DECIMAL", __import__("decimal").Decimal)
+_NT_LIST = typing.NewType("_NT_LIST", typing.List[__import__("decimal").Decimal])
+
+
 def _annotated_cases_in_union_dump(ctx):
     """'Annotated ... processed the same as wrapped types' also as a union case: the value is dumped by the case of its class (defect
     #102: the case was registered under typing.Annotated and every dump raised KeyError)."""
@@ -374,7 +380,12 @@ def _annotated_cases_in_union_dump(ctx):
     table = [(t.Union[t.Annotated[Decimal, "meta"], int], [(Decimal("1.5"), "1.5"), (3, 3)]),
              (t.Union[t.Annotated[t.List[Decimal], "m"], t.Annotated[str, 1], None], [([Decimal(1)], ["1"]), ("s", "s"), (None, None)]),
              (t.Union[t.Annotated[Decimal, "meta"], t.Literal[5, "x"]], [(Decimal(2), "2"), (5, 5), ("x", "x")]),
-             (t.List[t.Union[t.Annotated[bytes, "b"], t.Annotated[Decimal, "d"]]], [([b"a", Decimal(1)], ["YQ==", "1"])])]
+             (t.List[t.Union[t.Annotated[bytes, "b"], t.Annotated[Decimal, "d"]]], [([b"a", Decimal(1)], ["YQ==", "1"])]),
+             # 'All NewType's are treated as origin types', also as a union case; a Literal case stays one inside Annotated (report of a
+             # round-8 agent: "All cases of union must be class or Literal" for both)
+             (t.Union[_NT_DECIMAL, int], [(Decimal("1.5"), "1.5"), (3, 3)]), (t.Union[_NT_DECIMAL, None, str], [(None, None), ("s", "s"), (Decimal(2), "2")]),
+             (t.Union[_NT_LIST, str], [([Decimal(1)], ["1"]), ("s", "s")]), (t.Union[t.Annotated[t.Literal["a"], "m"], Decimal], [("a", "a"), (Decimal(2), "2")]),
+             (t.Union[t.Annotated[_NT_DECIMAL, "m"], t.Literal[5]], [(Decimal(2), "2"), (5, 5)])]
     for dt, sc in MODES:
         r = make_retort(dt, sc)
         for hint, pairs in table:
